@@ -1,5 +1,6 @@
 """C02 a reported match is genuine, leftmost, lowest-index: match postcondition."""
 from . import _expect_common as X
+from ..core.runner import split_range
 from ..monitors.expect_oracles import match_post
 
 ID = 'C02'
@@ -7,13 +8,35 @@ LEVEL = 'exploration'
 RULE = ('same scripted histories as C01 with pattern lists biased to overlapping/prefix/duplicate entries and '
         'EOF/TIMEOUT at random list positions; postcondition evaluated at every successful engine-level call on '
         'X=before+after+buffer with an independent re.search/str.find per listed pattern. non-trivial = at '
-        'least two listed patterns occur in the searched text; distinct by (pattern list, searched text, window)')
+        'least two listed patterns occur in the searched text; distinct by (pattern list, searched text, window). '
+        'Companions: awaited calls on a pipe against the naive model (checks/_async_model.py) and, on the four real '
+        'transports, every expect_exact / expect match must be the first occurrence in the text handed back '
+        '(checks/_real_ledger.py)')
 ASSUMPTIONS = ['re.search / str.find of the standard library are the definition of "occurs"',
                'window = slice of the last W characters of the pending text']
-REQUIRED = ['postcond_evaluated', 'postcond_competing']
-plan = X.plan
+REQUIRED = ['postcond_evaluated', 'postcond_competing', 'async_model_calls', 'real_match_clauses']
+
+
+def plan(tier, seed):
+    specs = X.plan(tier, seed)
+    n, k = (160, 4) if tier == 'quick' else (3000, 12)
+    for i, (a, b) in enumerate(split_range(n, k)):
+        # the asyncio read path against the naive model (index, before, after of every awaited call)
+        specs.append({'gen': 'async-model', 'n': b - a, 'shard': 450 + i, 'seed': seed, 'tier': tier})
+    n, k = (120, 4) if tier == 'quick' else (3000, 12)
+    for i, (a, b) in enumerate(split_range(n, k)):
+        # real transports: every reported match is the pattern's first occurrence in what was handed back
+        specs.append({'gen': 'real-ledger', 'n': b - a, 'shard': 400 + i, 'seed': seed, 'tier': tier})
+    return specs
 
 
 def run_shard(spec, acc):
     spec = dict(spec, prop=ID)
+    rp = spec.get('replay') if isinstance(spec.get('replay'), dict) else {}
+    if spec.get('gen') == 'real-ledger' or rp.get('real'):
+        from . import _real_ledger as RL
+        return RL.run(spec, acc)
+    if spec.get('gen') == 'async-model' or 'calls' in rp:
+        from . import _async_model as AM
+        return AM.run(spec, acc)
     X.drive(spec, acc, lambda run, acc: (lambda r, st: match_post(r, st, acc)))
